@@ -268,6 +268,8 @@ def gen_cases(rng, tier):
     for i in range(n_step):
         names = rng.sample(NAMES, rng.randint(1, 4))
         cases.append({'kind': 'step', 'proc': procs[i % len(procs)], 'names': names, 'sel': gen_sel(rng, names)})
+        if len(names) >= 2 and rng.chance(0.25):
+            cases[-1]['fk'] = True         # foreign keys between the resources and a custom schema property
         if len(names) >= 2 and rng.chance(0.3):
             # the last resource is produced upstream as a duplicate of the first (its rows exist only once the
             # first has been read): a step must leave it intact whatever it does to the first
@@ -291,6 +293,11 @@ def gen_cases(rng, tier):
         cases.append({'kind': 'step', 'proc': proc, 'names': names, 'sel': ['list', [names[-1], names[0]]]})
     # the argument forms of one processor under the same selector: validate(field, fn) means validate(row function) with
     # fn applied to the row's value for that field, in every selected resource, whether or not its schema declares the field
+    # systematically: foreign keys pointing at a resource that a step removes or merges: the other resources' descriptors stay as they are
+    for proc in ('delete_resource', 'concatenate', 'update_resource', 'set_type'):
+        names = ['a', 'ab', 'b']
+        for sel in (['list', ['a']], ['idx', -1], ['re', ['raw', 'a.*']]):
+            cases.append({'kind': 'step', 'proc': proc, 'names': names, 'sel': sel, 'fk': True})
     for i in range({'quick': 24, 'thorough': 200, 'search': 40}[tier]):
         names = rng.sample(NAMES, rng.randint(2, 4))
         cases.append({'kind': 'forms', 'names': names, 'sel': gen_sel(rng, names) if i % 3 else ['all'],
@@ -301,9 +308,14 @@ def gen_cases(rng, tier):
     return cases
 
 
-def resources_for(names):
+def resources_for(names, fk=False):
     # every resource has its own values, so that rows attached to the wrong resource show
-    return [{'name': n, 'fields': FIELDS, 'rows': [dict(r, b=r['b'] + 10 * i) for r in ROWS], 'pk': ['a']} for i, n in enumerate(names)]
+    res = [{'name': n, 'fields': FIELDS, 'rows': [dict(r, b=r['b'] + 10 * i) for r in ROWS], 'pk': ['a']} for i, n in enumerate(names)]
+    if fk:
+        # every resource refers to the one before it (the first to the last) by a foreign key, and carries a schema-level custom property
+        for i, r in enumerate(res):
+            r['schema_props'] = {'foreignKeys': [{'fields': 'a', 'reference': {'resource': names[i - 1], 'fields': 'a'}}], 'x-note': 'schema of %s' % names[i]}
+    return res
 
 
 def canon(out):
@@ -358,13 +370,13 @@ def run_impl(case):
         except Exception as e:
             return {'error': E_INDEX if isinstance(e, IndexError) else err_code(e), 'exc': '%s: %s' % (type(e).__name__, e)}
     proc = case['proc']
-    res = resources_for(names)
+    res = resources_for(names, fk=case.get('fk', False))
     if proc in ('load_tuple', 'load_dp'):
         return run_load(case, res, sel)
     log = []
     pre = []
     if case.get('dup'):
-        res = resources_for(names[:-1])
+        res = resources_for(names[:-1], fk=case.get('fk', False))
         pre = [DF.duplicate(source=names[0], target_name=names[-1], target_path=names[-1] + '.csv', duplicate_to_end=True)]
     base = canon(run_stream(res, pre + []))
     try:
